@@ -214,11 +214,26 @@ fn run_prog(p: &Prog, out: &mut Out) {
     mc::watch::progress(|| p.line());
     let r = mc::catch(|| {
         let mut m = p.machine();
+        // the supervision observes, it does not act: a twin without limits (stack size 0, program size 255)
+        // is clocked alongside; up to and including the edge at which the supervised machine halts, the
+        // registers, the RAM and the output registers of the two are the same
+        let mut twin = p.case.machine();
+        twin.raw_mut().set_stacksize(Stacksize::_0);
+        twin.raw_mut().set_programsize(Programsize::Size(255));
         let mut st = MonStats::default();
         let mut viol = None;
-        for _ in 0..p.edges {
+        for edge in 0..p.edges {
             if let Some(v) = monitored_edge(&mut m, &mut st) {
                 viol = Some(v);
+                break;
+            }
+            twin.raw_mut().trigger_clock_edge();
+            if m.registers().content() != twin.registers().content() || m.bus().memory()[..] != twin.bus().memory()[..] || m.bus().output_fe() != twin.bus().output_fe() || m.bus().output_ff() != twin.bus().output_ff() {
+                let cell = (0..240).find(|&i| m.bus().memory()[i] != twin.bus().memory()[i]);
+                viol = Some((
+                    "supervision/changes-the-computation".into(),
+                    format!("after edge {} (state {:?}) the supervised machine differs from the same machine without limits: registers {:02x?} vs {:02x?}, first differing RAM cell {:02x?}, outputs {:#04x}/{:#04x} vs {:#04x}/{:#04x}", edge, m.state(), m.registers().content(), twin.registers().content(), cell, m.bus().output_fe(), m.bus().output_ff(), twin.bus().output_fe(), twin.bus().output_ff()),
+                ));
                 break;
             }
             if m.state() != State::Running {
@@ -972,7 +987,7 @@ pub fn run() {
     ctx.set("traces_validated_against_impl", all.runs);
     ctx.set("evaluations", all.st.edges);
     ctx.set("distinct_nontrivial", all.halted.len());
-    ctx.set("rule", "every generated run is clocked edge by edge with the REF-SUP monitor checking the state flip of every edge; distinct_nontrivial = distinct halted machine states reached (full-state digest); each chosen halted state is the root of a depth-3 BFS over 10 further stimuli");
+    ctx.set("rule", "every generated run is clocked edge by edge with the REF-SUP monitor checking the state flip of every edge, alongside a twin machine without limits whose registers, RAM and outputs must be the same up to and including the halting edge; distinct_nontrivial = distinct halted machine states reached (full-state digest); each chosen halted state is the root of a depth-3 BFS over 10 further stimuli");
     ctx.set("exhaustive", true);
     ctx.set("bounds", format!("{} runs: LDSP to all 256 values x 5 walks x 5 sizes; recursion/pop loops x 7 start SPs x 5 sizes; MOV PC / JR to all 256 targets x {} limits; all 256 first bytes and second bytes after 4 prefixes; 23^2 two-instruction sequences x 3 register sets x 5 sizes x 5 limits{}; limits installed by load: 15 programs and all their ordered pairs as second loads (NOSET, empty images); the continue key (once, twice), the interrupt key and an input change before every edge of about 600 halting programs; 5 looping programs for 100 000 monitored edges; absorption BFS depth 3 from {} halted states chosen class-complete from {} classes ({} distinct halted states kept)", n_progs, 256, if quick { "" } else { " + 23^3 three-instruction sequences x 3 register sets x 5 sizes x 2 limits" }, chosen.len(), n_classes, all.halted.len()));
     ctx.set("monitored_edges", all.st.edges);
